@@ -9,10 +9,11 @@ EXPLANATION = ("Three gateways turn names from trees/indices into paths or persi
                "path::component(entry.filename, symlink-mode-if-link, options). (2) gix-worktree StackDelegate::push: create_leading_directory (the only caller of "
                "std::fs::create_dir in that module) is cut off unless validate_last_component returned Ok, which calls path::component and returns its error. "
                "(3) gix-index State::from_tree: both collector callbacks call path::component, every Err edge stores into invalid_path and does not continue, and from_tree "
-               "cannot construct a State on the Cancelled arm. Options come from the caller (parameter provenance). That component() refuses exactly git's set of names is not decided.")
+               "cannot construct a State on the Cancelled arm. Options come from the caller (parameter provenance). The set of code points is_dot_hfs skips equals git's HFS-ignorable table (predicate evaluated over all of Unicode by interval abstract interpretation). That component() refuses exactly git's set of names is otherwise not decided.")
 
 
 def run(db, chk):
+    hfs_ignorable_table(db, chk)
     callers = sorted({f.name for f in db.fns.values() if f.kind != "promoted" for c in f.calls() if c.is_(r"^gix_validate::path::component$")})
     chk.floor("callers of path::component in the workspace build", len(callers), 3)
     # (2) worktree
@@ -108,3 +109,33 @@ def run(db, chk):
                     src |= upv.get(r_[2][0], set())
             chk.ob("options-from-caller", "editor", any(x[0] == "arg" and ".validate" in x[2] for x in src), "options must be the cursor's protect options, got %s" % src, c.where(), key="options-from-caller|editor")
     chk.analysed["configs"] = ["ws", "gix-te (gix with feature tree-editor)"]
+
+
+GIT_HFS_IGNORABLE = [(0x200c, 0x200f), (0x202a, 0x202e), (0x206a, 0x206f), (0xfeff, 0xfeff)]   # git utf8.c next_hfs_char()
+
+
+def hfs_ignorable_table(db, chk):
+    """the code points HFS+ folding ignores (and is_dot_hfs therefore skips) are git's: the filter predicate is evaluated by abstract interpretation
+    over all of 0..=0x10FFFF (helpers inlined) and the set it drops must equal git's table."""
+    from gx import aiint
+    f = db.one(r"^gix_validate::path::is_dot_hfs$")
+    preds = [g for g in db.closures_of(f) if g.kind == "closure" and g.argc == 2]
+    chk.floor("is_dot_hfs: character filter closure", len(preds), 1)
+    res = lambda nm: next((h for h in db.by_crate["gix_validate"] if h.name == nm and h.kind != "promoted"), None)
+    done = False
+    for g in preds:
+        try:
+            pw = aiint.piecewise(g, lambda p: p == [2, "*"], 0, 0x10FFFF, resolve=res)
+        except aiint.Unsupported as e:
+            continue
+        vals = {v for _, _, v in pw}
+        if not vals <= {0, 1}:
+            continue
+        dropped = [(a, b) for a, b, v in pw if v == 0]
+        done = True
+        chk.ob("hfs-ignorable-set", "is_dot_hfs filter", dropped == GIT_HFS_IGNORABLE,
+               "code points skipped: %s; git ignores %s" % (["%x-%x" % x for x in dropped], ["%x-%x" % x for x in GIT_HFS_IGNORABLE]),
+               "%s:%d" % (g.file, g.line), key="hfs-ignorable-set")
+        chk.sample({"hfs_filter": g.name, "dropped": ["%x-%x" % x for x in dropped]})
+    if not done:
+        chk.anchor_lost("is_dot_hfs: filter predicate evaluable as char -> bool")
